@@ -172,31 +172,34 @@ def main(argv):
     kani_ev = None
     if cfg.get('kani') and not a.no_kani:
         import kani_run
-        kres = kani_run.run_harnesses(cfg['kani'], tier=tier, prop=prop)
-        kani_ev = kres['evidence']
-        for h in kres['harness_results']:
-            if h['status'] == 'success':
-                total_fn_ok += 1
-                total_fine += h.get('checks', 0)
-                if len(samples) < 20:
-                    samples.append({'obligation': 'kani harness ' + h['name'] + ': ' + h.get('what', ''), 'backend': 'kani/cbmc',
-                                    's': h.get('time_s'), 'bounded': h.get('bounded', False)})
-            elif h['status'] == 'failure':
-                ob = {'id': f'KANI::{h["name"]}::{h.get("failed_check", "")}'[:300], 'message': h.get('failed_desc', 'kani FAILURE'),
-                      'rendered': h.get('log_tail', ''), 'fn': h.get('target'), 'kind': 'refuted', 'clause': h.get('failed_check', ''),
-                      'site': '', 'counterexample': h.get('counterexample')}
-                k = next((k for k in known if k.get('status') == 'finding' and ob['id'].startswith(k['obligation'])), None)
-                if k:
-                    known_hits.append((k, ob))
+        kani_sets_to_run = [cfg['kani']] + (cfg.get('kani_thorough', []) if tier == 'thorough' else [])
+        kani_ev = []
+        for kset in kani_sets_to_run:
+            kres = kani_run.run_harnesses(kset, tier=tier, prop=prop)
+            kani_ev.append(kres['evidence'])
+            for h in kres['harness_results']:
+                if h['status'] == 'success':
+                    total_fn_ok += 1
+                    total_fine += h.get('checks', 0)
+                    if len(samples) < 20:
+                        samples.append({'obligation': 'kani harness ' + h['name'] + ': ' + h.get('what', ''), 'backend': 'kani/cbmc',
+                                        's': h.get('time_s'), 'bounded': h.get('bounded', False)})
+                elif h['status'] == 'failure':
+                    ob = {'id': f'KANI::{h["name"]}::{h.get("failed_check", "")}'[:300], 'message': h.get('failed_desc', 'kani FAILURE'),
+                          'rendered': h.get('log_tail', ''), 'fn': h.get('target'), 'kind': 'refuted', 'clause': h.get('failed_check', ''),
+                          'site': '', 'counterexample': h.get('counterexample')}
+                    k = next((k for k in known if k.get('status') == 'finding' and ob['id'].startswith(k['obligation'])), None)
+                    if k:
+                        known_hits.append((k, ob))
+                    else:
+                        violations.append({'unit': 'KANI', 'engine': 'kani', **ob})
                 else:
-                    violations.append({'unit': 'KANI', 'engine': 'kani', **ob})
-            else:
-                undecided.append({'unit': 'KANI', 'reason': f'harness {h["name"]}: {h["status"]} {h.get("reason", "")}'})
-        for h in kres['harness_results']:
-            fn_under_contract.append(h.get('target', h['name']) + (' [kani bounded]' if h.get('bounded') else ' [kani]'))
-        assumptions.update(kres.get('assumptions', []))
-        if kres.get('error'):
-            undecided.append({'unit': 'KANI', 'reason': kres['error']})
+                    undecided.append({'unit': 'KANI', 'reason': f'harness {h["name"]}: {h["status"]} {h.get("reason", "")}'})
+            for h in kres['harness_results']:
+                fn_under_contract.append(h.get('target', h['name']) + (' [kani bounded]' if h.get('bounded') else ' [kani]'))
+            assumptions.update(kres.get('assumptions', []))
+            if kres.get('error'):
+                undecided.append({'unit': 'KANI', 'reason': kres['error']})
 
     # ---- verdict ----
     exit_code = 0
